@@ -152,6 +152,7 @@ Inductive daction :=
 | DSpawnRelease (c : nat)
 | DActivate (g : nat)         (* GrainIdentity *)
 | DUserPill (g : nat)         (* TellGrain(PoisonPill) *)
+| DUserPill2 (g : nat)        (* two PoisonPills back to back *)
 | DTell (a : nat)             (* Tell(actor a, msg): flag 0 accepted, 1 ErrDead, 2 refused/dead-lettered by the gate *)
 | DStop.                      (* ActorSystem.Stop(), returns *)
 
@@ -174,6 +175,7 @@ Definition drive (ws : bool) (n : nat) (s : sys) (d : daction) : sys * nat :=
   | DSpawnRelease c => match run ws s [LTree (LSpawnInit c); LTree (LSpawnAdd c)] with Some s' => (s', 0) | None => (s, 1) end
   | DActivate g => match step ws s (LActivate g) with Some s' => (s', 0) | None => (s, 1) end
   | DUserPill g => match run ws s [LUserPill g; LGrainPill g] with Some s' => (s', 0) | None => (s, 1) end
+  | DUserPill2 g => match run ws s [LUserPill g; LUserPill g; LGrainPill g; LGrainPill g] with Some s' => (s', 0) | None => (s, 1) end
   | DTell a =>
     match step ws s (LTell a) with
     | Some s' => (s', match sends s' with (_, _, Accepted) :: _ => 0 | (_, _, Dead) :: _ => 1 | _ => 2 end)
